@@ -528,6 +528,49 @@ func (p *prog) getDispatch() (groups [][]dcase, numbers []string) {
 		}
 		return flagCtor[sel.Sel.Name]
 	}
+	// headerLit: the keys of the eth.Header literal(s) under n; calls of package-level functions of jrpc2
+	// are followed (inlined) as long as the callee makes no request itself
+	var headerLit func(n ast.Node, depth int) bool
+	headerLit = func(n ast.Node, depth int) bool {
+		found := false
+		ast.Inspect(n, func(m ast.Node) bool {
+			switch y := m.(type) {
+			case *ast.CompositeLit:
+				if namedName(info.TypeOf(y)) != "Header" {
+					return true
+				}
+				for _, el := range y.Elts {
+					kv, ok := el.(*ast.KeyValueExpr)
+					if !ok {
+						die("Client.Get: positional eth.Header literal")
+					}
+					numbers = append(numbers, "Header."+kv.Key.(*ast.Ident).Name)
+				}
+				found = true
+			case *ast.CallExpr:
+				id, ok := y.Fun.(*ast.Ident)
+				if !ok {
+					return true
+				}
+				obj, isFunc := info.Uses[id].(*types.Func)
+				if !isFunc || obj.Pkg() != jr.Types || depth > 2 {
+					return true
+				}
+				callee := p.funcDecl(jr, "", id.Name)
+				if callee == nil || callee.Body == nil {
+					return true
+				}
+				if len(fetchCalls(callee.Body)) > 0 {
+					die("Client.Get: helper %s makes a request", id.Name)
+				}
+				if headerLit(callee.Body, depth+1) {
+					found = true
+				}
+			}
+			return true
+		})
+		return found
+	}
 	for _, st := range fd.Body.List {
 		switch x := st.(type) {
 		case *ast.SwitchStmt:
@@ -545,37 +588,44 @@ func (p *prog) getDispatch() (groups [][]dcase, numbers []string) {
 					dc.fetch = append(dc.fetch, fetchCalls(b)...)
 				}
 				if len(dc.fetch) == 0 {
-					// bare numbers: a composite literal of eth.Header
+					// bare numbers: a composite literal of eth.Header, in the clause or in the
+					// same-package helper function(s) the clause calls
 					for _, b := range cc.Body {
-						ast.Inspect(b, func(n ast.Node) bool {
-							cl, ok := n.(*ast.CompositeLit)
-							if !ok || namedName(info.TypeOf(cl)) != "Header" {
-								return true
-							}
-							for _, el := range cl.Elts {
-								kv, ok := el.(*ast.KeyValueExpr)
-								if !ok {
-									die("Client.Get: positional eth.Header literal")
-								}
-								numbers = append(numbers, "Header."+kv.Key.(*ast.Ident).Name)
-							}
+						if headerLit(b, 0) {
 							dc.fetch = []string{"GNumbers"}
-							return true
-						})
+						}
 					}
 				}
 				g = append(g, dc)
 			}
 			groups = append(groups, g)
 		case *ast.IfStmt:
-			fs := fetchCalls(x.Body)
-			if len(fs) == 0 && x.Else == nil {
-				continue
+			if len(fetchCalls(x)) == 0 {
+				continue // no request anywhere in this if / else chain
 			}
-			if x.Else != nil || x.Init != nil {
-				die("Client.Get: if/else around a request")
+			// `if c1 {A} else if c2 {B} [else {C}]` with plan-flag conditions = a tag-less switch with these cases
+			var g []dcase
+			for cur := x; ; {
+				if cur.Init != nil {
+					die("Client.Get: if with an init statement around a request")
+				}
+				g = append(g, dcase{guard: []string{flagOf(cur.Cond)}, fetch: fetchCalls(cur.Body)})
+				if cur.Else == nil {
+					break
+				}
+				if next, ok := cur.Else.(*ast.IfStmt); ok {
+					cur = next
+					continue
+				}
+				eb := cur.Else.(*ast.BlockStmt)
+				dc := dcase{dflt: true, fetch: fetchCalls(eb)}
+				if len(dc.fetch) == 0 && headerLit(eb, 0) {
+					dc.fetch = []string{"GNumbers"}
+				}
+				g = append(g, dc)
+				break
 			}
-			groups = append(groups, []dcase{{guard: []string{flagOf(x.Cond)}, fetch: fs}})
+			groups = append(groups, g)
 		}
 	}
 	// no request outside the recognised statements
